@@ -21,3 +21,28 @@ package unmarshal
 //@     go: if len(r) != $n { confirm("wrong length") }
 //@     go: for _, x := range r { if x != 7 { confirm("element not filled") } }
 //@   end
+
+// ---------------------------------------------------------------- decoders -> onEntries
+
+// What every log/metric decoder must hand to the row builder: one timestamp,
+// one line, one value and one type per entry, and a type the row builder knows
+// (0 both, 1 log, 2 metric).
+//@ spec fn sameLen(ts []int64, msg []string, val []float64, tp []uint8) bool = len(ts) == len(msg) && len(msg) == len(val) && len(val) == len(tp)
+//@ spec fn knownTypes(tp []uint8) bool = forall i int :: 0 <= i && i < len(tp) ==> tp[i] < 3
+
+//@ fieldfunc logsProtoDec.onEntries(labels, timestampsNS, message, value, types)
+//@   requires same-length: sameLen(timestampsNS, message, value, types)
+//@   requires known-types: knownTypes(types)
+//@   modifies nothing
+//@ fieldfunc promMetricsProtoDec.onEntries(labels, timestampsNS, message, value, types)
+//@   requires same-length: sameLen(timestampsNS, message, value, types)
+//@   requires known-types: knownTypes(types)
+//@   modifies nothing
+
+//@ func (*logsProtoDec).Decode [C02,C03]
+//@   flag checks=-assert
+
+//@ func (*promMetricsProtoDec).Decode [C02,C03]
+//@   flag checks=-assert
+//@   loop 3:
+//@     invariant len(tsns) == len(value) && len(value) == len(msg)
